@@ -37,6 +37,8 @@ CONSTANTS Tier,                    \* "quick" | "thorough" | "sim" | "neg" | "ne
           Buggy_OptionsCrossed,     \* the decorator reads the wrong one of its options: it installs its cached
                                     \* hash iff init=True - a class that writes its own __init__ is left with
                                     \* Expression.__hash__, which cannot cache where dataclasses are frozen
+          Buggy_LegacyHashAssigns,  \* Expression.__hash__ caches by plain attribute assignment: it raises on an
+                                    \* instance of a frozen dataclass (every process without -O)
           Buggy_VarsByName          \* the pickle of a compiled expression carries the NAMES of its listed
                                     \* variables; the consumer re-makes them as plain variables, which are not
                                     \* the leaves of an expression written over a leaf subclass
@@ -74,11 +76,11 @@ Variants == { << 3, 4 >>, << 4, 5 >>, << 3, 6 >>, << 22, 23 >>, << 22, 24 >>, <<
               \* (round 5) other leaf class / listed by name, as objects / listed, unlisted
               << 117, 118 >>, << 120, 121 >>, << 123, 124 >>, << 124, 123 >>, << 125, 127 >>, << 129, 128 >>,
               \* (round 7) other field value below a hand-written __init__ / other leaf class
-              << 136, 138 >>, << 140, 147 >> }
+              << 136, 138 >>, << 140, 147 >>, << 155, 162 >> }
 \* entries whose histories are enumerated deeper: a stock node with strings, a
 \* user dataclass node, a legacy node, a legacy subclass of a dataclass node,
 \* a node that does not cache its hash, a compiled expression
-Deep == {3, 22, 41, 48, 50, 46, 56, 68, 70, 74, 78, 84, 91, 98, 117, 125, 132, 136, 142, 148}
+Deep == {3, 22, 41, 48, 50, 46, 56, 68, 70, 74, 78, 84, 91, 98, 117, 125, 132, 136, 142, 148, 155}
 
 \* quick tier: histories one step deeper for one or two stock nodes per mechanism
 \* (all stock nodes share the generated pickling code) and for everything that
@@ -87,18 +89,21 @@ Deep == {3, 22, 41, 48, 50, 46, 56, 68, 70, 74, 78, 84, 91, 98, 117, 125, 132, 1
 Rep == {1, 3, 7, 16, 19, 22, 25, 26, 28, 32, 34, 38, 39, 40} \cup 41..77
        \cup {78, 79, 84, 91, 94, 98, 101, 104}
        \cup {117, 119, 123, 125, 126, 131, 132, 134}
-       \cup {136, 142}
+       \cup {136, 142, 155}
 \* (round 7) one entry per way a user class can be declared (init x where its hash comes from,
 \* every kind of base under a hand-written __init__); each goes through EVERY configuration
 \* tuple (which of producer / consumer runs under -O, which hash seeds), not only the spread ones
 \* (the default declaration, init and hash left on, is what the rest of the catalogue is made of)
-OptionReps == {136, 139, 141, 142, 144, 146, 148}
-ASSUME \A init \in BOOLEAN : \A src \in {"gen", "own", "inherit"} :
+OptionReps == {136, 139, 141, 142, 144, 146, 148, 157, 159}
+ASSUME \A init \in BOOLEAN : \A src \in {"gen", "own", "inherit", "legacy"} :
           << init, src >> = << TRUE, "gen" >> \/ \E i \in OptionReps : \E cls \in UserClassesIn(Cat[i].e) \cap DataclassUser :
              UserDecl(cls).init = init /\ HashSource(cls) = src
 ASSUME \A b \in {"Expression", "plain", "stock", "user"} :
           \E i \in OptionReps : \E cls \in UserClassesIn(Cat[i].e) \cap DataclassUser :
              ~UserDecl(cls).init /\ UserDecl(cls).base = b
+ASSUME \A b \in {"Expression", "plain"} :
+          \E i \in OptionReps : \E cls \in UserClassesIn(Cat[i].e) \cap DataclassUser :
+             HashSource(cls) = "legacy" /\ UserDecl(cls).base = b
 
 Mk(pr, proto, ct, np, d, wrap) ==
     [ta |-> pr[1], tb |-> pr[2], proto |-> proto, cfg |-> CfgTuples[ct], np |-> np, d |-> d,
@@ -138,7 +143,7 @@ Insts ==
                        proto \in Protos, ct \in 1..NCT,
                        w \in (IF pr[1] \in Keyable THEN Wraps ELSE {""}) } : pr \in Twins \cup Variants }
       [] Tier = "neg" -> { Mk(Tw(3), 2, 1, 2, 4, ""), Mk(Tw(3), 2, 1, 2, 4, "dict"), Mk(Tw(59), 4, 2, 2, 3, ""),
-                          Mk(Tw(136), 3, 1, 2, 3, "") }
+                          Mk(Tw(136), 3, 1, 2, 3, ""), Mk(Tw(155), 4, 2, 2, 3, "") }
       [] Tier = "neg2" -> { Mk(Tw(78), 2, 1, 2, 3, ""), Mk(Tw(91), 4, 2, 2, 3, ""), Mk(<< 98, 97 >>, 2, 1, 2, 4, ""),
                            Mk(Tw(126), 3, 3, 2, 3, "") }
 
@@ -166,13 +171,15 @@ ModelHash(p, k) == p * 1000 + k
 \* user node with its own __hash__ do not cache)
 Caches(t) == LET e == Cat[t].e IN
              ~(e.t = "Tup" \/ (e.t = "User" /\ e.cls \in DataclassUser /\ HashSource(e.cls) = "own"))
-\* (round 7) dataclass nodes are frozen in a process started without -O: hash() of an object
-\* that contains an instance of a class left without a usable hash raises there (hash, ==, dict
-\* and set lookups all hash).  With the decorator as documented no catalogue class is such a one
-\* (CatalogueSane); under Buggy_OptionsCrossed the ones that write their own __init__ are.
+\* (round 7) dataclass nodes are frozen in a process started without -O.  The legacy
+\* Expression.__hash__ has to cache without assigning an attribute; one that assigns
+\* (Buggy_LegacyHashAssigns) raises there for every object that contains an instance of a class
+\* whose hash ends at it (hash, ==, dict and set lookups all hash): the hash=False classes without
+\* an own hash, and under Buggy_OptionsCrossed also the ones that write their own __init__
+\* (Buggy_OptionsCrossed alone only changes WHICH hash such a class gets - no promise breaks).
 Frozen(p) == Cfgs[inst.cfg[p]].opt = 0
 ImplCannotHashTree(p, t) ==
-    /\ Frozen(p)
+    /\ Buggy_LegacyHashAssigns /\ Frozen(p)
     /\ \E cls \in UserClassesIn(Cat[t].e) \cap DataclassUser : ~HashProvided(cls, Buggy_OptionsCrossed)
 ImplCannotHash(p, o) == ImplCannotHashTree(p, heap[p][o].tree)
 \* an unpickled object whose field values sit under the wrong names is another object
